@@ -2,7 +2,7 @@ CONSTANTS
   NThreads = 2
   NProcs = 1
   NPaths = 1
-  Family = "two"
+  Family = "one"
   NotifyRule = "own_zero"
   Thread <- MCThread
   Proc <- MCProc
@@ -19,4 +19,7 @@ INVARIANT NoRecursiveGrant
 INVARIANT Quiescent
 INVARIANT Counters
 INVARIANT NoLostWakeup
+
+INVARIANT QuietJustified
 CHECK_DEADLOCK FALSE
+INVARIANT EnMatches
